@@ -223,6 +223,8 @@ class ResourceAnalysis:
             f = facts.fn(f'{CLS}::{name}')
             if f is None and name == 'enqueue': continue          # written inline in lock(): the lock rows see its queue operations either way
             if f is None: rep.anchor_missing(f'{CLS}::{name}', 'function not found'); continue
+            if name in ('lock', 'unlock') and not (len(f.d['params']) == 1 and f.d['params'][0]['ctype'].endswith('OpType')):
+                rep.anchor_missing(f'{CLS}::{name}(OpType)', f'{name}() takes ({", ".join(p_["ctype"] for p_ in f.d["params"])}): a re-designed lock, the tables do not apply'); continue
             self.fn[name] = f
         c = facts.cls(CLS)
         if c is None: rep.anchor_missing(CLS, 'class not found')
@@ -572,6 +574,15 @@ class ResourceAnalysis:
                     self.add('RES.13', vu[0], f'{name} -> {callee}({mode}) on every path', calls[0].shortloc(), vu[1].replace('the Resource ' + name, name + '()')); continue
             if not ok and not calls and allcalls:
                 self.add('RES.13', None, f'{name} -> {callee}({mode})', f.shortloc(), f'{name} does not call {callee}() itself ({found}): the forwarding table does not apply'); continue
+            if not ok and calls:
+                # a refutation needs the wrong operation or the wrong mode constant handed to lock(OpType) / unlock(OpType); a wrapper that calls
+                # something of another shape (a re-designed lock) is outside the forwarding table
+                c0 = calls[0]; a0 = c0.ns('args')[0] if c0.ns('args') else None
+                mode_const = a0 is not None and a0.k == 'ref' and (a0.qname or '').split('::')[-1] in ('Read', 'Write', 'None')
+                wrong_op = c0.calleeq != f'{CLS}::{callee}' and len(calls) == 1 and len(c0.ns('args')) == 1 and mode_const
+                wrong_mode = c0.calleeq == f'{CLS}::{callee}' and len(calls) == 1 and len(c0.ns('args')) == 1 and mode_const and not (a0.qname or '').endswith('::' + mode)
+                if not (wrong_op or wrong_mode):
+                    self.add('RES.13', None, f'{name} -> {callee}({mode})', f.shortloc(), f'{name} forwards as {found}: not the lock(OpType) / unlock(OpType) shape of the forwarding table'); continue
             self.add('RES.13', ok, f'{name} -> {callee}({mode})', f.shortloc(), '' if ok else f'{name} forwards as {found}')
         for g, lockfn, unlockfn in (('ReadLock', 'lockRead', 'unlockRead'), ('WriteLock', 'lockWrite', 'unlockWrite')):
             cls = f'tulz::rwp::{g}'
